@@ -334,6 +334,17 @@ def write_replay(prop, harness, cfg, values, failed, how):
     return path
 
 
+def relayout(arr, mode):
+    """the same logical array in another memory layout: 'C' (as is), 'F' (column-major copy), 'T' (transposed
+    view of a transposed copy)"""
+    arr = np.asarray(arr)
+    if mode == "F" and arr.ndim >= 2:
+        return np.asfortranarray(arr)
+    if mode == "T" and arr.ndim >= 2:
+        return np.ascontiguousarray(arr.T).T
+    return arr
+
+
 def replay_payload(payload):
     import importlib
 
